@@ -167,5 +167,16 @@ CHECKS = {
              "Value equality between schedulers is declined.",
         technique="static analysis: call-site table rules, reaching definitions on the CFG, alias/ownership (read-only, prange) rules over the syntax tree",
     ),
+    "C14": dict(
+        category="proof",
+        text="Closed obligation set: for each of the ~500 subscripts of all 35 kernels, every index component is shown to lie in [-len, len) under the kernel's contract "
+             "by the affine bound prover (loop-range substitution by coefficient sign, dominating conditions as additive certificates, flow-sensitive symbolic shapes "
+             "incl. slices, boolean masks, merged branch shapes), three counter lemmas, or a frozen contract table whose entries name their clause; ws2d's precondition "
+             "(equal lengths >= 2) is verified at each of its 24 call sites; every CFG path through each gufunc fully writes every output and returned arrays come from "
+             "initialising constructors. Indices that are in bounds only through negative wrap-around (ws2d at n = 2, 3) are listed, not hidden.",
+        note="Trusted: array arguments have the declared ranks; Numba wraps negative indices; the contract table of sa/props/c14.py (zone ids, group ids, marks == observations, "
+             "contiguous labels, append-counters). The dynamic observable (IndexError under NUMBA_BOUNDSCHECK) is replaced by these obligations.",
+        technique="static analysis: symbolic shape inference + affine bound proofs without a solver, CFG must-pass-through for output writes",
+    ),
 }
 NOT_APPLICABLE = {}
